@@ -198,9 +198,13 @@ def gen_target(rng, g, D, fam, where, seed):
         return dict(family="rosen")
     if fam == "adversary":
         n = rng.randrange(4, 60)
-        weights = _choice(rng, [(1, 1, 1, 1), (6, 1, 1, 1), (1, 1, 1, 6), (1, 4, 4, 1), (3, 0, 0, 3), (0, 1, 1, 8)])
-        script = "".join(_choice(rng, ["G", "g", "t", "l"], weights) for _ in range(n))
+        # G: gain >> forcing function, m: gain around tol_fun (an unsuccessful poll/search that still moves the
+        # incumbent), g: gain << tol_fun, t: tie, l: loss
+        weights = _choice(rng, [(1, 1, 1, 1, 1), (6, 1, 1, 1, 1), (1, 1, 1, 1, 6), (1, 2, 4, 4, 1), (3, 0, 0, 0, 3), (0, 1, 1, 1, 8),
+                                (1, 5, 1, 1, 4), (0, 4, 1, 0, 5)])
+        script = "".join(_choice(rng, ["G", "m", "g", "t", "l"], weights) for _ in range(n))
         return dict(family="adversary", script=script, big=_r(10 ** rng.uniform(-1, 2), 3),
+                    medium=_r(10 ** rng.uniform(-3.6, -1.8), 3),
                     tiny=_r(10 ** rng.uniform(-7, -3.5), 3), loss=_r(10 ** rng.uniform(-3, 1), 3),
                     start=_r(rng.uniform(-10, 100), 4), cycle=rng.random() < 0.7)
     raise ValueError(fam)
